@@ -224,7 +224,13 @@ general_composite_rect  (pixman_implementation_t *imp,
 	uint32_t *s, *m, *d;
 
 	m = mask_iter.get_scanline (&mask_iter, NULL);
-	s = src_iter.get_scanline (&src_iter, m);
+	/* The mask is passed to the source iterator only as a hint that
+	 * lets it skip pixels whose mask is zero.  The iterators index it
+	 * as one uint32_t per pixel, which is wrong for the wide pipeline
+	 * (four floats per pixel): give no hint there.
+	 */
+	s = src_iter.get_scanline (&src_iter,
+				   width_flag == ITER_WIDE ? NULL : m);
 	d = dest_iter.get_scanline (&dest_iter, NULL);
 
 	compose (imp->toplevel, op, d, s, m, width);
